@@ -1,4 +1,4 @@
-"""C07 -- import tidying never changes what a name means (R07.1-R07.12)."""
+"""C07 -- import tidying never changes what a name means (R07.1-R07.13)."""
 from __future__ import annotations
 
 import ast
@@ -19,7 +19,7 @@ EXPLANATION = (
     "visit<Name> method on the base visitor (dispatch is by class name).  R07.5: the used-name recorder adds every "
     "dotted prefix of a used primary (the one-time selector needs prefix-closure).  R07.6: in the star-import branch the "
     "stateful selector is consulted only until its first acceptance.  R07.7: a from-import is identified by (module_name, level): "
-    "module_name equality between two infos is always paired with level equality, and a rebuilt FromImport keeps the level of its source.  R07.8: `import a.b` is covered by `import a` only on a dotted prefix that ends in the dot.  R07.9: the resource the self-import visitor compares with is its constructor argument, unchanged.  R07.10: relative module lookup climbs (level - 1) packages on every path.  R07.11: merging from-imports decides 'already imported' on (name, alias) pairs.  R07.12: the local unbound-name finder tells global declarations from local bindings.  Idempotence, re-emitted text and sort keys "
+    "module_name equality between two infos is always paired with level equality, and a rebuilt FromImport keeps the level of its source.  R07.8: `import a.b` is covered by `import a` only on a dotted prefix that ends in the dot.  R07.9: the resource the self-import visitor compares with is its constructor argument, unchanged.  R07.10: relative module lookup climbs (level - 1) packages on every path.  R07.11: merging from-imports decides 'already imported' on (name, alias) pairs.  R07.12: the local unbound-name finder tells global declarations from local bindings.  R07.13: the import rewriter cuts the source into lines at '\\n' only.  Idempotence, re-emitted text and sort keys "
     "are not decided."
 )
 ASSUMPTIONS = ["scope-opening constructors without a handler in the finder (async def, lambda, comprehensions) only make more names count as used: conservative, not armed"]
@@ -35,6 +35,7 @@ def check(ctx, res) -> None:
     _self_identity_rule(ctx, res)
     _alias_pair_rule(ctx, res)
     _global_declaration_rule(ctx, res)
+    _import_rewriter_lines_rule(ctx, res)
     from .common import relative_level_rule
 
     relative_level_rule(ctx, res, "R07.10")
@@ -422,3 +423,38 @@ def _global_declaration_rule(ctx, res, rule: str = "R07.12") -> None:
             "_LocalUnboundNameFinder.is_bound answers 'bound locally' for every name in the function's name table, which also holds the names the "
             "function declares `global`: `global os` + `os.getcwd()` in a function is not counted as a use of the module-level `import os`, and "
             "organize_imports removes the import (NameError at run time)", function=f.qualname)
+
+
+def _import_rewriter_lines_rule(ctx, res, rule: str = "R07.13") -> None:
+    """R07.13: the import rewriter locates statements by the parser's line numbers, so wherever it cuts the module's
+    source into lines it must cut at '\\n' only (never str.splitlines(), which also ends a line at form feed, U+2028,
+    \\x1c-\\x1e, \\x85)."""
+    idx = ctx.idx
+    n = 0
+    for f in sorted(idx.functions.values(), key=lambda f: f.qualname):
+        if f.unit.modname != "rope.refactor.importutils.module_imports":
+            continue
+        cuts = []
+        for c in calls_in(f.node):
+            mentions = any(isinstance(y, ast.Attribute) and y.attr == "source_code" for y in ast.walk(c))
+            if not mentions:
+                continue
+            if isinstance(c.func, ast.Attribute) and c.func.attr in ("splitlines", "split"):
+                cuts.append(c)
+            elif isinstance(c.func, ast.Name) and "line" in c.func.id.lower() and "split" in c.func.id.lower():
+                cuts.append(c)
+        for k, c in enumerate(cuts, 1):
+            n += 1
+            bad = isinstance(c.func, ast.Attribute) and c.func.attr == "splitlines"
+            res.add(rule, f"{f.qualname.split('.', 3)[-1]}|cut#{k}", not bad, f"{f.unit.rel}:{c.lineno}",
+                    "the source is cut into lines at '\\n' only" if not bad else
+                    f"{f.name} cuts the module source with str.splitlines() and then indexes the pieces with the parser's line numbers: with a form feed "
+                    "or U+2028 in a comment/string above the imports every import statement is looked for on the wrong line (imports duplicated, header text lost)",
+                    function=f.qualname)
+    res.floor(rule, "places where the import rewriter cuts the source into lines", n, 2)
+    # the helper itself
+    for f in idx.functions.values():
+        if f.unit.modname == "rope.refactor.importutils.module_imports" and "split" in f.name.lower() and "line" in f.name.lower():
+            uses = [c for c in calls_in(f.node) if isinstance(c.func, ast.Attribute) and c.func.attr == "splitlines"]
+            res.add(rule, f"{f.name}|helper", not uses, f.where, "the line-cutting helper splits at '\\n'" if not uses else
+                    f"{f.name} itself uses str.splitlines()", function=f.qualname)
